@@ -306,3 +306,26 @@ def threshold_space(p, methods=('exhaustive_search', 'greedy_search'), iroas_val
             out.append({'panel': p, 'rows': [[1, 1, 1]] * G, 'nomatrix': False, 'extra': None,
                         'kw': dict(base_kw, volume_ratio_tolerance=m - 1.0), 'deviations': 1})
     return [c for c in with_methods(out, methods) if precondition_ok(c)]
+
+
+def reuse2_space(p, base_kw, methods=('exhaustive_search', 'greedy_search')):
+    """Two-deviation REUSE slice: one non-free eligibility row x one parameter that makes the search drop a geo
+    (n_geos_max, share range, budget range), run interleaved with another object that admits a different geo set."""
+    G = p['G']
+    out = []
+    drops = [('n_geos_max', v) for v in sorted({2, 3} - {G})]
+    drops += [('treatment_share_range', list(v)) for v in SHARES[1:3]]
+    drops += [('budget_range', list(v)) for v in budget_alphabet(p)[:2]]
+    inter = [pr for pr in PRIORS if pr.get('interleave')]
+    for g in range(G):
+        for r in ROW_ALTS:
+            if r is None:
+                continue
+            for name, val in drops:
+                rows = [[1, 1, 1] for _ in range(G)]
+                rows[g] = list(r)
+                for pr in inter:
+                    for m in methods:
+                        out.append({'panel': p, 'rows': rows, 'nomatrix': False, 'extra': None,
+                                    'kw': dict(base_kw, **{name: val}), 'deviations': 3, 'prior': pr, 'method': m})
+    return [c for c in out if precondition_ok(c)]
